@@ -141,11 +141,11 @@ def fault_case(draw):
 
     pool = ["none"] * 4
     for f in sorted(FAULTS):
-        pool += [f] * (1 if f.startswith("ms_len_") else 3)
+        pool += [f] * (1 if f.startswith("ms_len_") else (8 if f == "unknown_key_surface" else 3))
     fault = draw(st.sampled_from(pool))
     kinds = FAULTS[fault] if fault != "none" else ("aero", "struct", "aerostruct", "multisec", "mesh")
     t = draw(template(kinds=kinds))
-    params = dict(which=draw(st.integers(0, 11)), shorter=draw(st.booleans()), even=draw(st.sampled_from([4, 2, 6, 8])),
+    params = dict(which=draw(st.integers(0, 59)), shorter=draw(st.booleans()), even=draw(st.sampled_from([4, 2, 6, 8])),
                   surface=draw(st.integers(0, 1)), value=draw(st.sampled_from([3, 0.5, "x", True])))
     # make the template compatible with the fault so that exactly one fault is present
     if fault == "ground_no_symmetry":
@@ -688,7 +688,7 @@ RULES = {
 }
 
 SUBS = [
-    Sub("fault_rejected", fault_case(), verdict_fault, quick=320, thorough=8000),
+    Sub("fault_rejected", fault_case(), verdict_fault, quick=480, thorough=10000),
     Sub("valid_repeatable", st.fixed_dictionaries(dict(template=template(kinds=("aero", "struct", "aerostruct", "multisec")))),
         verdict_valid, quick=128, thorough=3000),
     Sub("valid_repeatable_direct",
